@@ -10,41 +10,57 @@ EXTRA = {"C03_a": ["C07"], "C03_b": ["C05"], "C08_a": ["C04"], "C08_b": ["C07"],
 ids = sys.argv[1:] or sorted(d for d in os.listdir(os.path.join(HERE, "seeded")) if os.path.isdir(os.path.join(HERE, "seeded", d)))
 claimed = {c["property_id"] for c in json.load(open(os.path.join(HERE, "MANIFEST.json")))["checks"]}
 rows = []
-for sid in ids:
+import threading
+from concurrent.futures import ThreadPoolExecutor
+locks = {c: threading.Lock() for c in claimed}
+JOBS = int(os.environ.get("MATRIX_JOBS", "6"))
+
+
+def run_one(sid, chk):
+    """One check against one seeded change, in its own worktree and output directory.  The same check never
+    runs twice at once (C11/C19 write generated files with fixed names)."""
     d = os.path.join(HERE, "seeded", sid)
-    meta = json.load(open(os.path.join(d, "meta.json")))
-    prop = meta["property"]
-    results = {}
-    for chk in [prop] + EXTRA.get(sid, []):
-        if chk not in claimed:
-            results[chk] = "check-not-built"
-            continue
+    if chk not in claimed:
+        return "check-not-built"
+    with locks[chk]:
         wt = tempfile.mkdtemp(prefix="vqmat_")
-        subprocess.run(["git", "-C", "/repo", "worktree", "add", "-q", "--detach", wt, "HEAD"], check=True)
-        ap = subprocess.run(["git", "-C", wt, "apply", os.path.join(d, "patch.diff")])
-        if ap.returncode != 0:
-            results[chk] = "patch-does-not-apply"
-        else:
-            env = dict(os.environ, VQ_REPO=wt)
+        out = tempfile.mkdtemp(prefix="vqmatout_")
+        try:
+            subprocess.run(["git", "-C", "/repo", "worktree", "add", "-q", "--detach", wt, "HEAD"], check=True)
+            ap = subprocess.run(["git", "-C", wt, "apply", os.path.join(d, "patch.diff")])
+            if ap.returncode != 0:
+                return "patch-does-not-apply"
+            env = dict(os.environ, VQ_REPO=wt, VQ_OUT=out)
             p = subprocess.run([os.path.join(HERE, "bin", "check"), chk, "--tier", "quick"], env=env, stdout=subprocess.PIPE, stderr=subprocess.STDOUT, text=True)
             lines = [l for l in p.stdout.split("\n") if l.startswith("VIOLATION")]
             concrete = [l for l in lines if not l.rstrip().endswith("no-failing-input-found")]
             if p.returncode == 0 and not lines:
-                results[chk] = "MISSED"
-            elif concrete:
+                return "MISSED"
+            if p.returncode != 0 and not lines:
+                return "exit %d without a VIOLATION line: %s" % (p.returncode, p.stdout[-200:].replace("\n", " "))
+            if concrete:
                 msg = [l for l in p.stdout.split("\n") if "violation:" in l]
-                results[chk] = "detected with concrete input: " + (msg[0].split("violation:", 1)[1].strip()[:160] if msg else "")
-            else:
-                results[chk] = "detected (no-failing-input-found)"
-        subprocess.run(["git", "-C", "/repo", "worktree", "remove", "--force", wt])
-        subprocess.run(["rm", "-rf", wt])
-    meta["detected_by"] = results
-    json.dump(meta, open(os.path.join(d, "meta.json"), "w"), indent=1)
-    rows.append((sid, prop, meta.get("summary", ""), results))
-    print(sid, results, flush=True)
-# evidence files were rewritten by the mutant runs: restore them from git
-subprocess.run(["git", "-C", HERE, "checkout", "--", "evidence"])
-subprocess.run("rm -f %s/replays/*.json" % HERE, shell=True)
+                return "detected with concrete input: " + (msg[0].split("violation:", 1)[1].strip()[:160] if msg else "")
+            return "detected (no-failing-input-found)"
+        finally:
+            subprocess.run(["git", "-C", "/repo", "worktree", "remove", "--force", wt])
+            subprocess.run(["rm", "-rf", wt, out])
+
+
+jobs = []
+metas = {}
+for sid in ids:
+    metas[sid] = json.load(open(os.path.join(HERE, "seeded", sid, "meta.json")))
+    for chk in [metas[sid]["property"]] + EXTRA.get(sid, []):
+        jobs.append((sid, chk))
+with ThreadPoolExecutor(max_workers=JOBS) as ex:
+    results = list(ex.map(lambda j: (j, run_one(*j)), jobs))
+for sid in ids:
+    meta = metas[sid]
+    res = {chk: r for (s2, chk), r in results if s2 == sid}
+    meta["detected_by"] = res
+    json.dump(meta, open(os.path.join(HERE, "seeded", sid, "meta.json"), "w"), indent=1)
+    print(sid, res, flush=True)
 with open(os.path.join(HERE, "seeded", "MATRIX.md"), "w") as fh:
     fh.write("# Seeded changes vs checks (quick tier)\n\n| id | property | change | result |\n|---|---|---|---|\n")
     allmeta = sorted(d for d in os.listdir(os.path.join(HERE, "seeded")) if os.path.isdir(os.path.join(HERE, "seeded", d)))
